@@ -170,9 +170,9 @@ Lemma read_request_raise : forall T K cfg st r s e, lib_ok r ->
   read_request T K cfg st r = Raise s e -> pre_fail r s e \/ post_raise T cfg s e.
 Proof.
   intros T K cfg st r s e L H. unfold read_request in H.
-  destruct (q_open r) as [x|] eqn:Q1; [inversion H; subst; left; left; split; reflexivity|].
-  destruct (q_read r) as [x|] eqn:Q2; [inversion H; subst; left; right; left; split; reflexivity|].
-  destruct (q_drain r) as [x|] eqn:Q3; [inversion H; subst; left; right; right; split; reflexivity|].
+  destruct (q_open r) as [x|] eqn:Q1; [inversion H; subst; left; left; split; [reflexivity | assumption]|].
+  destruct (q_read r) as [x|] eqn:Q2; [inversion H; subst; left; right; left; split; [reflexivity | assumption]|].
+  destruct (q_drain r) as [x|] eqn:Q3; [inversion H; subst; left; right; right; split; [reflexivity | assumption]|].
   right.
   destruct (step_meta K r) as [s0 e0|name] eqn:M.
   - inversion H; subst. eapply step_meta_raise; exact M.
@@ -255,7 +255,7 @@ Qed.
 
 Theorem keeps_serving : forall T K cfg rs st, covers T = true ->
   Forall (fun r => well_framed r /\ lib_ok r) rs ->
-  exists reps, serve_model T K cfg st rs = map Answered reps /\ length reps = length rs.
+  exists reps, serve_model T K cfg st rs = map Answered reps /\ List.length reps = List.length rs.
 Proof.
   intros T K cfg rs. induction rs as [|r rest IH]; intros st C H.
   - exists []; split; reflexivity.
